@@ -42,6 +42,7 @@ class Sched:
         self.log = []            # (mid, client, server idx, meth, outcome)
         self.observers = []      # callables(msg, phase, result) for monitors
         self.max_timer_jump = None
+        self.late = set()        # server idx whose messages are only delivered when nothing else can happen (no other message, no timer)
 
     # ------------------------------------------------------------------ enqueue
     def enqueue(self, server, client, meth, args, kwargs, target):
@@ -78,10 +79,19 @@ class Sched:
         """One scheduling decision.  Returns False when nothing can happen any more."""
         boot.drain()
         if self.pending:
+            cand = [j for j, m in enumerate(self.pending) if m.server.idx not in self.late] if self.late else None
+            if cand is not None and not cand:
+                # only late servers have something pending: every timer fires first, then they answer
+                if self.fire_next_timer():
+                    return True
+                cand = list(range(len(self.pending)))
             c = self.next_choice()
             if self.allow_timer_choice and c < 0 and self.timers():
                 return self.fire_next_timer()
-            i = abs(c) % len(self.pending)
+            if cand is None:
+                i = abs(c) % len(self.pending)
+            else:
+                i = cand[abs(c) % len(cand)]
             if i != 0:
                 self.nonfifo += 1
             m = self.pending.pop(i)
